@@ -25,3 +25,11 @@ Theorem C09_sequence : emergency_sequence =
   [DControl 6 true; DStopAll; DControl 7 false; DControl 32 true; DControl 31 true; DEngineShutdown].
 Proof. reflexivity. Qed.
 Print Assumptions C09_sequence.
+
+(* the premise of abstracting from time in this property's model: the code it models waits, polls and gives up
+   exactly where the model says (primitive codes in Proofs/W_*.v); re-extracted from the source on every run *)
+Require Import GV.Gen.Consts GV.Proofs.W_director.
+Theorem C09_time_abstraction : waits_director = (@nil Z).
+Proof. exact w_director. Qed.
+Check C09_time_abstraction : waits_director = (@nil Z).
+Print Assumptions C09_time_abstraction.
